@@ -75,6 +75,13 @@ class StmtMixin:
     def s_AnnAssign(self, st, fr):
         if st.value is None:
             return
+        ann = ast.unparse(st.annotation)
+        if isinstance(st.value, ast.List) and not st.value.elts and ann in ("list[int]", "list[str]"):
+            # an annotated empty list of ints / names: a symbolic (array, length 0) list from the start
+            n = self.new_ref(ast.unparse(st.target).replace(".", "_"))
+            v = self.new_list(IntListP(z3.Array(n, z3.IntSort(), z3.IntSort()), z3.IntVal(0), "int" if ann == "list[int]" else "atom"), n)
+            self.assign(st.target, v, fr, st)
+            return
         v = self.eval(st.value, fr)
         self.assign(st.target, v, fr, st)
 
